@@ -33,23 +33,65 @@ Proof.
 Qed.
 
 (* ---- where the argument list of a prime call ends ----
-   The list ends at the first position where, after an argument, there is no comma and no expression can
-   start: end of input, `)`, or a token satisfying [no_start] -- provided that token is not a newline that
-   is directly followed by a comma (the parser's [Newline, Comma] continuation), does not continue a
-   postfix chain ( ' ( [ . ) or an operator expression, and is not a comment. *)
+   The list ends at the first position where, after an argument, there is no comma -- not even behind line
+   breaks, blank lines and comment-only lines ([first_sig]) -- and no expression can start: end of input,
+   `)`, or a token satisfying [no_start]; that token must not continue a postfix chain ( ' ( [ . ) or an
+   operator expression, and must not be a comment. *)
+Fixpoint first_sig (ts : list tok) : tok :=
+  match ts with
+  | [] => TEOF
+  | TK KNewline :: r => first_sig r
+  | TComment :: r => first_sig r
+  | t :: _ => t
+  end.
+
 Definition prime_end (b : bool) (rest : list tok) : Prop :=
   match rest with
   | [] => True
   | t :: r' =>
-      (t = TK KRightParen \/ no_start t) /\ t <> TK KComma /\ follow_tok b t = true /\ pt_valid T t = false
-      /\ (t = TK KNewline -> match r' with [] => True | t2 :: _ => t2 <> TK KComma /\ t2 <> TComment end)
+      (t = TK KRightParen \/ no_start t) /\ follow_tok b t = true /\ pt_valid T t = false
+      /\ first_sig rest <> TK KComma
   end.
 
 Lemma prime_end_follow b rest : prime_end b rest -> follow b rest.
-Proof. destruct rest as [|t r]; [trivial|]. intros (_ & _ & F & _). exact F. Qed.
+Proof. destruct rest as [|t r]; [trivial|]. intros (_ & F & _). exact F. Qed.
 
 Lemma prime_end_follow_rest rest : prime_end false rest -> follow_rest T false rest.
-Proof. destruct rest as [|t r]; [trivial|]. intros (_ & _ & F & V & _). split; assumption. Qed.
+Proof. destruct rest as [|t r]; [trivial|]. intros (_ & F & V & _). split; assumption. Qed.
+
+(* skipping newlines (and the comments behind them) lands on [first_sig] *)
+Lemma strip_false_first ts : forall p,
+  first_sig (snd (strip false ts p)) = first_sig ts
+  /\ length (snd (strip false ts p)) <= length ts
+  /\ match snd (strip false ts p) with TComment :: _ => False | _ => True end.
+Proof.
+  induction ts as [|t ts IH]; intros p; [repeat split; auto|].
+  cbn [strip]. destruct t as [s|s|z|s|b0| |k|]; try (repeat split; auto; fail).
+  - destruct (IH (TComment :: p)) as (A & B & Cc). cbn [first_sig length]. repeat split; [exact A|lia|exact Cc].
+  - destruct k; repeat split; auto.
+Qed.
+
+Lemma skip_nls_token n : forall ts p ov, length ts <= n ->
+  match ts with TComment :: _ => False | _ => True end ->
+  token (skip_while_nl (S n) (C p ts ov false)) = first_sig ts.
+Proof.
+  induction n as [|n IH]; intros ts p ov Hl Hc.
+  - destruct ts as [|t ts]; [reflexivity|cbn [length] in Hl; lia].
+  - destruct ts as [|t ts]; [reflexivity|].
+    cbn [skip_while_nl]. unfold is_k. cbn [token post].
+    destruct t as [s|s|z|s|b0| |k|]; try reflexivity; [contradiction|].
+    destruct k; try reflexivity. cbn [tok_is kw_eqb first_sig].
+    unfold skip. cbn [post pre over nl adv]. rewrite adv0.
+    destruct (strip_false_first ts (TK KNewline :: p)) as (A & B & Cc).
+    destruct (strip false ts (TK KNewline :: p)) as [p2 q2]. cbn [snd] in A, B, Cc.
+    rewrite <- A. apply IH; [cbn [length] in Hl; lia|exact Cc].
+Qed.
+
+Lemma skip_nls_first p ts ov : match ts with TComment :: _ => False | _ => True end ->
+  token (skip_nls (C p ts ov false)) = first_sig ts.
+Proof.
+  intros Hc. unfold skip_nls, local_fuel. cbn [post]. apply skip_nls_token; [lia|exact Hc].
+Qed.
 
 (* the argument loop stops at [rest] *)
 Lemma args_stop acc p rest ov b f : prime_end b rest ->
@@ -59,14 +101,7 @@ Proof.
   destruct rest as [|t r]; [reflexivity|]. destruct H as ([->|N] & _); [reflexivity|].
   assert (E : go T (S f) (QPrec (pt_entry T) (C p (t :: r) ov b)) = Err) by (apply prec_err; exact N).
   assert (R : run (go T (S f)) (ptry (expression T (C p (t :: r) ov b))
-                 (fun '(e, c1) =>
-                    let c2 := match look2 c1 with
-                              | (TK KNewline, TK KComma) => skip 2 c1
-                              | (TK KComma, TK KNewline) => skip 2 c1
-                              | (TK KComma, _) => skip 1 c1
-                              | _ => c1
-                              end in
-                    call (QArgs true (acc ++ [e]) c2))
+                 (fun '(e, c1) => call (QArgs true (acc ++ [e]) (after_arg c1)))
                  (if true then ok (REs acc (C p (t :: r) ov b)) else err))
               = Ok (REs acc (C p (t :: r) ov b))).
   { unfold expression. rewrite !run_ptry. unfold call_E. cbn [run]. rewrite E. reflexivity. }
@@ -75,24 +110,17 @@ Proof.
 Qed.
 
 (* after an argument that is followed by [rest], nothing is skipped *)
-Lemma look_stay p rest ov b : prime_end b rest ->
-  match look2 (C p rest ov b) with
-  | (TK KNewline, TK KComma) => skip 2 (C p rest ov b)
-  | (TK KComma, TK KNewline) => skip 2 (C p rest ov b)
-  | (TK KComma, _) => skip 1 (C p rest ov b)
-  | _ => C p rest ov b
-  end = C p rest ov b.
+Lemma after_arg_stay p rest ov b : prime_end b rest -> after_arg (C p rest ov b) = C p rest ov b.
 Proof.
-  intros H. unfold look2. cbn [token post]. destruct rest as [|t r]; [reflexivity|].
-  destruct H as (_ & NC & F & _ & NL).
+  intros H. unfold after_arg. cbn [token post]. destruct rest as [|t r]; [reflexivity|].
+  destruct H as (_ & F & _ & NC).
   destruct t as [s|s|z|s|b0| |k|]; try reflexivity.
-  destruct k; try reflexivity; [congruence|].
-  (* Newline: only when newlines are significant *)
-  destruct b; [discriminate|]. specialize (NL eq_refl).
-  destruct r as [|t2 r2].
-  - reflexivity.
-  - destruct NL as [N1 N2]. rewrite skip1; [|discriminate|split; [exact N2|intros X; discriminate]].
-    cbn [token post]. destruct t2 as [s|s|z|s|b0| |k|]; try reflexivity. destruct k; try reflexivity. congruence.
+  destruct k; try reflexivity.
+  - exfalso. apply NC. reflexivity.
+  - destruct b; [discriminate|]. cbn [tok_is kw_eqb orb andb].
+    rewrite skip_nls_first by exact I.
+    destruct (first_sig (TK KNewline :: r)) as [s|s|z|s|b0| |k|] eqn:E; try reflexivity.
+    destruct k; try reflexivity. exfalso. apply NC. reflexivity.
 Qed.
 
 Lemma args_last_prime acc p t ts ov b f e p1 rest ov1 b1 : starter t -> prime_end b1 rest ->
@@ -102,7 +130,7 @@ Proof.
   intros S PE He. rewrite go_S. cbn [step]. unfold step_args.
   starter_cases t S; cbn [token post];
     (unfold expression; rewrite !run_ptry; unfold call_E; cbn [run]; rewrite He; cbn [get_E run ok ptry];
-     rewrite look_stay by exact PE; apply run_call).
+     rewrite after_arg_stay by exact PE; apply run_call).
 Qed.
 
 Lemma args_comma_prime acc p t ts ov b f e p1 t2 rest ov1 b1 : starter t -> starter t2 ->
@@ -111,17 +139,9 @@ Lemma args_comma_prime acc p t ts ov b f e p1 t2 rest ov1 b1 : starter t -> star
   = go T f (QArgs true (acc ++ [e]) (C (TK KComma :: p1) (t2 :: rest) ov1 b1)).
 Proof.
   intros S S2 He. rewrite go_S. cbn [step]. unfold step_args.
-  assert (L : match look2 (C p1 (TK KComma :: t2 :: rest) ov1 b1) with
-              | (TK KNewline, TK KComma) => skip 2 (C p1 (TK KComma :: t2 :: rest) ov1 b1)
-              | (TK KComma, TK KNewline) => skip 2 (C p1 (TK KComma :: t2 :: rest) ov1 b1)
-              | (TK KComma, _) => skip 1 (C p1 (TK KComma :: t2 :: rest) ov1 b1)
-              | _ => C p1 (TK KComma :: t2 :: rest) ov1 b1
-              end = C (TK KComma :: p1) (t2 :: rest) ov1 b1).
-  { unfold look2. rewrite skip1; [|discriminate|apply starter_clean; exact S2]. cbn [token post].
-    starter_cases t2 S2; reflexivity. }
   starter_cases t S; cbn [token post];
     (unfold expression; rewrite !run_ptry; unfold call_E; cbn [run]; rewrite He; cbn [get_E run ok ptry];
-     rewrite L; apply run_call).
+     rewrite after_arg_comma by exact S2; apply run_call).
 Qed.
 
 (* the arguments of a prime call, printed with commas, followed by [rest] *)
@@ -140,7 +160,7 @@ Proof.
     destruct r as [|e2 r2].
     + assert (F : follow b rest) by (apply prime_end_follow; exact PE).
       assert (St : stop_at T (pt_entry T) rest /\ hstop T e rest).
-      { destruct rest as [|t r']; [split; exact I|]. destruct PE as (_ & _ & _ & V & _). split; left; exact V. }
+      { destruct rest as [|t r']; [split; exact I|]. destruct PE as (_ & _ & V & _). split; left; exact V. }
       destruct St as [St Hs].
       destruct (direct T OK e (HP e) L1 (HW e D1) (pt_entry T) p rest ov b (entry_accepts T OK e) Hs F St) as [f1 H1].
       destruct (hs_pp e rest) as (t & ts & E & S0).
